@@ -453,6 +453,103 @@ func (c *corruptor) corrupt(t *irdump.Ty, v any, depth int) (any, string, bool) 
 	return nil, "", false
 }
 
+// omitVariant: the document Go writes for the same value with every `omitempty` field of basic,
+// slice or map type set to its zero value: those keys are absent (the validators see SQL NULL)
+func (c *corruptor) omitVariant(t *irdump.Ty, v any, depth int) (any, bool) {
+	if depth > 8 || t == nil {
+		return v, false
+	}
+	switch t.K {
+	case "arr":
+		arr, ok := v.([]any)
+		if !ok {
+			return v, false
+		}
+		out := make([]any, len(arr))
+		changed := false
+		for i, e := range arr {
+			nv, ch := c.omitVariant(t.E, e, depth+1)
+			out[i] = nv
+			changed = changed || ch
+		}
+		return out, changed
+	case "map":
+		obj, ok := v.(map[string]any)
+		if !ok {
+			return v, false
+		}
+		out := map[string]any{}
+		changed := false
+		for k, e := range obj {
+			nv, ch := c.omitVariant(t.E, e, depth+1)
+			out[k] = nv
+			changed = changed || ch
+		}
+		return out, changed
+	case "ref":
+		d := c.decl[t.Q]
+		if d == nil {
+			return v, false
+		}
+		switch d.Kind {
+		case "named":
+			return c.omitVariant(d.Under, v, depth+1)
+		case "struct":
+			obj, ok := v.(map[string]any)
+			if !ok {
+				return v, false
+			}
+			out := map[string]any{}
+			for kk, vv := range obj {
+				out[kk] = vv
+			}
+			changed := false
+			for _, f := range d.Fields {
+				if !f.Exported {
+					continue
+				}
+				e, has := out[f.JSONName]
+				if !has {
+					continue
+				}
+				opts := strings.Split(reflect.StructTag(f.Tag).Get("json"), ",")
+				omit := false
+				for _, o := range opts[1:] {
+					if o == "omitempty" {
+						omit = true
+					}
+				}
+				ft := f.T
+				for ft != nil && ft.K == "ref" && c.decl[ft.Q] != nil && c.decl[ft.Q].Kind == "named" {
+					ft = c.decl[ft.Q].Under
+				}
+				if omit && ft != nil && (ft.K == "basic" || ft.K == "map" || (ft.K == "arr" && ft.Len < 0)) {
+					delete(out, f.JSONName)
+					changed = true
+					continue
+				}
+				nv, ch := c.omitVariant(f.T, e, depth+1)
+				out[f.JSONName] = nv
+				changed = changed || ch
+			}
+			return out, changed
+		case "union":
+			obj, ok := v.(map[string]any)
+			if !ok {
+				return v, false
+			}
+			kind, _ := obj["Kind"].(string)
+			for _, m := range d.UMembers {
+				if m.K == "ref" && c.decl[m.Q] != nil && c.decl[m.Q].Name == kind {
+					nv, ch := c.omitVariant(m, obj["Data"], depth+1)
+					return map[string]any{"Kind": kind, "Data": nv}, ch
+				}
+			}
+		}
+	}
+	return v, false
+}
+
 func runC04(r *rep.Report, thorough bool) error {
 	r.Rule = "sql-flavoured synthesised model files compiled with the real gounions wrappers: (1) every validation function of the real sql.Generate compared token-wise with the function printed from the Lean model, per function name; closure of each script; (2) for every jsonb column, the JSON written by Go for random values of the column's Go type is evaluated by the Lean plpgsql semantics: the CHECK must admit it (TRUE or NULL); (3) single-point corruptions of those documents from the five classes (unknown object key, wrong JSON kind, unknown union Kind, non-member enum value, wrong fixed-array length), generated along the Go type, must evaluate to FALSE. non-trivial = document of a struct, union, map or array column"
 	rng := rand.New(rand.NewSource(r.Seed))
@@ -479,6 +576,7 @@ func runC04(r *rep.Report, thorough bool) error {
 	var good []*analysed
 	jsonCols := map[string]map[string][]string{} // case -> table -> json column names
 	realByCase := map[string]map[string]string{}
+	astReported := map[string]bool{}
 	nameClash := map[string]bool{}
 	for _, a := range as {
 		if a.Ana == nil || a.Env == nil {
@@ -621,6 +719,13 @@ func runC04(r *rep.Report, thorough bool) error {
 					classes = append(classes, cls)
 				}
 			}
+			// one more document Go really writes: the same value with its omitempty fields zeroed
+			omitIdx := -1
+			if ov, ok := co.omitVariant(ft, doc, 0); ok {
+				omitIdx = len(docs)
+				docs = append(docs, ov)
+				r.Hist("documents-with-omitted-empty-fields")
+			}
 			reply, err := d.Call(map[string]any{"op": "c04.eval", "env": a.Env, "type": ft, "docs": docs})
 			if err != nil {
 				return err
@@ -675,37 +780,75 @@ func runC04(r *rep.Report, thorough bool) error {
 				}
 				r.Fail(rep.Failure{Signature: "c04:go-document-rejected" + shape, What: "the CHECK constraint of a jsonb column evaluates to " + res[0] + " on a document Go emits for the column's type", Input: in, Observed: res[0]})
 			}
-			// the same documents through the *real* script, when its validators are instances of
-			// the templates (recognised, and printed back by the model to the real text)
-			if fn, _ := reply["fn"].(string); fn != "" {
-				if funcs, texts, ok := pgReachable(realByCase[ln.Case], fn); ok {
-					rr, err := d.Call(map[string]any{"op": "c04.evalReal", "funcs": funcs, "fn": fn, "docs": docs})
-					if err != nil {
-						return err
+			if omitIdx >= 0 && res[0] != "false" && res[omitIdx] != "true" && res[omitIdx] != "null" {
+				ob, _ := json.Marshal(docs[omitIdx])
+				r.Fail(rep.Failure{Signature: "c04:go-document-rejected:omitted-empty-field" + c04Shape(a, ft, decl), What: "the CHECK evaluates to " + res[omitIdx] + " on the document Go writes when the omitempty fields of the value are empty (keys absent)", Input: map[string]any{"case": ln.Case, "table": ln.Type, "column": col, "document": string(ob), "sources": a.Case.Sources()}, Observed: res[omitIdx]})
+			}
+			// the same documents through the *real* script: every validator text of the real output
+			// is parsed into a syntax tree (PgParse) and evaluated by the semantics of the plpgsql
+			// fragment (PgAst.evalFunc, refined by the template-level semantics: C04_ast_refines);
+			// the trees are compared with those of the model's functions
+			if fn, _ := reply["fn"].(string); fn != "" && realByCase[ln.Case] != nil {
+				var texts []string
+				var names []string
+				for name := range realByCase[ln.Case] {
+					names = append(names, name)
+				}
+				sort.Strings(names)
+				for _, name := range names {
+					if strings.HasPrefix(strings.TrimSpace(realByCase[ln.Case][name]), "CREATE OR REPLACE FUNCTION") {
+						texts = append(texts, realByCase[ln.Case][name])
 					}
-					same := true
-					for i, t := range strsOf(rr["texts"]) {
-						if sqlTokens(t) != sqlTokens(texts[i]) {
-							same = false
+				}
+				rr, err := d.Call(map[string]any{"op": "c04.evalAst", "texts": texts, "fn": fn, "docs": docs, "env": a.Env, "type": ft})
+				if err != nil {
+					return err
+				}
+				if pe := strsOf(rr["parseErrors"]); len(pe) > 0 {
+					r.Hist("real-script:outside-the-parsed-fragment")
+					if !astReported[ln.Case+"/parse"] {
+						astReported[ln.Case+"/parse"] = true
+						r.Disagree(rep.Disagreement{Tie: "c04.real-validator-parses", Input: map[string]any{"case": ln.Case, "sources": a.Case.Sources()},
+							Model: "every generated validator is in the plpgsql fragment of PgAst (six templates)", Impl: strings.Join(pe, " | ")})
+					}
+				}
+				if tie, ok := rr["tie"].(map[string]any); ok {
+					if differ := strsOf(tie["differ"]); len(differ) > 0 && !nameClash[ln.Case] && !strings.Contains(c04Shape(a, ft, decl), "float-or-bool-backed-enum") {
+						r.Hist("real-script:syntax-tree-differs-from-the-model")
+						key := ln.Case + "/" + strings.Join(differ, ",")
+						if !astReported[key] {
+							astReported[key] = true
+							r.Disagree(rep.Disagreement{Tie: "c04.validator-syntax-tree", Input: map[string]any{"case": ln.Case, "column": ln.Type + "." + col, "functions": differ, "sources": a.Case.Sources()},
+								Model: "astOf of the model's template instance", Impl: "the parsed real text of the function is a different tree (or the function is missing)"})
 						}
-					}
-					if !same {
-						r.Hist("real-script:not-an-instance-of-the-templates")
 					} else {
-						r.Hist("real-script:evaluated")
-						rres := strsOf(rr["results"])
-						if rres[0] != res[0] && rres[0] != "true" && rres[0] != "null" {
-							r.Fail(rep.Failure{Signature: realSig(nameClash[ln.Case], "c04:go-document-rejected-by-the-real-script"+c04Shape(a, ft, decl)), What: "the validators of the real script (recognised as template instances, evaluated by the Lean semantics) give " + rres[0] + " on a document Go emits for the column's type; the model's validators give " + res[0], Input: in, Observed: texts})
-						}
-						for i, cls := range classes {
-							if rres[i+1] != res[i+1] && rres[i+1] != "false" {
-								cb, _ := json.Marshal(docs[i+1])
-								r.Fail(rep.Failure{Signature: realSig(nameClash[ln.Case], "c04:corruption-not-rejected-by-the-real-script:"+cls+c04Shape(a, ft, decl)), What: "the validators of the real script do not reject a document corrupted by " + cls + " (" + rres[i+1] + "); the model's validators give " + res[i+1], Input: map[string]any{"case": ln.Case, "table": ln.Type, "column": col, "corrupted": string(cb), "sources": a.Case.Sources()}, Observed: texts})
-							}
+						r.Hist("real-script:syntax-trees-equal-the-model")
+					}
+					if wf, _ := tie["wf"].(bool); !wf && strings.Contains(c04Shape(a, ft, decl), "float-or-bool-backed-enum") {
+						// a recorded finding: the comparison is a type error in PostgreSQL, outside the fragment
+						r.Hist("real-script:refinement-theorem-not-applicable(float-or-bool-backed-enum)")
+					} else if !wf {
+						r.Disagree(rep.Disagreement{Tie: "c04.template-instances-well-formed", Input: map[string]any{"case": ln.Case, "column": ln.Type + "." + col},
+							Model: "hypothesis wf of theorem C04_ast_refines", Impl: "a function of the model's script is not well-formed"})
+					}
+				}
+				r.Hist("real-script:evaluated")
+				rres := strsOf(rr["results"])
+				if len(rres) == len(res) {
+					if omitIdx >= 0 && (res[omitIdx] == "true" || res[omitIdx] == "null") && rres[omitIdx] != "true" && rres[omitIdx] != "null" {
+						ob, _ := json.Marshal(docs[omitIdx])
+						r.Fail(rep.Failure{Signature: realSig(nameClash[ln.Case], "c04:go-document-rejected-by-the-real-script:omitted-empty-field"+c04Shape(a, ft, decl)), What: "the validators of the real script give " + rres[omitIdx] + " on the document Go writes when the omitempty fields of the value are empty (keys absent: the field validators are called on SQL NULL); the model's validators give " + res[omitIdx], Input: map[string]any{"case": ln.Case, "table": ln.Type, "column": col, "document": string(ob), "sources": a.Case.Sources()}, Observed: rres[omitIdx]})
+					}
+					// (when the model's validators refuse the document too, that is reported above)
+					if (res[0] == "true" || res[0] == "null") && rres[0] != "true" && rres[0] != "null" {
+						r.Fail(rep.Failure{Signature: realSig(nameClash[ln.Case], "c04:go-document-rejected-by-the-real-script"+c04Shape(a, ft, decl)), What: "the validators of the real script (parsed, evaluated by the semantics of the plpgsql fragment) give " + rres[0] + " on a document Go emits for the column's type; the model's validators give " + res[0], Input: in, Observed: rres[0]})
+					}
+					for i, cls := range classes {
+						if rres[i+1] != res[i+1] && rres[i+1] != "false" && rres[i+1] != "error" {
+							cb, _ := json.Marshal(docs[i+1])
+							r.Fail(rep.Failure{Signature: realSig(nameClash[ln.Case], "c04:corruption-not-rejected-by-the-real-script:"+cls+c04Shape(a, ft, decl)), What: "the validators of the real script do not reject a document corrupted by " + cls + " (" + rres[i+1] + "); the model's validators give " + res[i+1], Input: map[string]any{"case": ln.Case, "table": ln.Type, "column": col, "corrupted": string(cb), "sources": a.Case.Sources()}, Observed: rres[i+1]})
 						}
 					}
-				} else {
-					r.Hist("real-script:not-recognised")
 				}
 			}
 			for i, cls := range classes {
